@@ -128,6 +128,20 @@ Theorem C18_proportion_exceeding_spec : forall (a : larr) (thr : list xv) (rd pd
 Proof. exact proportion_array_spec. Qed.
 Print Assumptions C18_proportion_exceeding_spec.
 
+(* ---- arrays ---- *)
+(* flip_flop_index / encompassing_sector_size on an array apply the sequence functions above to the values along the
+   sampling (resp. the single collapsed) dimension, for every assignment of the remaining dimensions *)
+Theorem C18_array_is_sequence_along_dim : forall (a : larr) (sd : dim) (ang : bool) (r : larr), ff_array a sd ang = Ok r ->
+  forall e, lget r e = (if ang then ff_angular else ff_linear) (map (lget a) (envs (lsize a) (dinter (ldims a) [sd]) e)).
+Proof. exact ff_array_get. Qed.
+Print Assumptions C18_array_is_sequence_along_dim.
+
+Theorem C18_sector_array_is_sequence_along_dim : forall (a : larr) (keep : list dim) (skipna : bool) (r : larr),
+  sector_array a keep skipna = Ok r ->
+  exists d, ddiff (ldims a) keep = [d] /\ forall e, lget r e = sector_x skipna (map (lget a) (envs (lsize a) (dinter (ldims a) [d]) e)).
+Proof. exact sector_array_get. Qed.
+Print Assumptions C18_sector_array_is_sequence_along_dim.
+
 (* ---- selections ---- *)
 (* positions of the requested labels; KeyError when a label is absent; the selected array holds at position k
    of the sampling dimension the value at the k-th selected position, and the index is computed on it *)
